@@ -22,11 +22,11 @@ CLAIMED = {
          "Structural necessary condition of the genesis round trip: every constant store prefix that consensus code writes is exported and re-imported by its module, every GenesisState field is assigned on export and consumed on import, every registered parameter key is exported. A missing table entry is state silently dropped by export/import. Validate(), JSON fidelity and continuation equivalence are not decided.",
          "Trusts dependencies; store keys are opened only through prefix.NewStore(ctx.KVStore(k.<key>), KeyPrefix(const)) (an unresolved prefix on a consensus path makes the check undecided, not passing).",
          "DESIGN.md §3 C18"),
- "C10": ("E2/E7: path-sensitive guard dominance over normalised branch predicates (flags expanded to the comparisons that set them) + argument provenance of keyed accesses and bank counter-parties",
+ "C10": ("E2/E7: path-sensitive guard dominance over normalised branch predicates (flags expanded to the comparisons that set them) + argument provenance of keyed accesses and bank counter-parties; argument provenance of the verifying DID manager (created with the claimed owner)",
          "Structural necessary conditions of actor authorization, for all paths of Complete, Cancel, Ready, Migrate, Store (payer selection) and the five node handlers: every state-changing effect is reachable only through the comparisons that tie the signer to the provider/creator/payer it claims to be; node handlers key every record and coin movement by the signer, and GetSigners returns the Creator address. A reported bypass is a concrete branch sequence. Honesty of TxAddresses lists is not decided.",
          "Trusts dependencies; canonical access-path terms ignore aliasing through nested heap pointers; a boolean copied into a flag without ever being tested directly is not expanded (would be reported, not passed).",
          "DESIGN.md §3 C10"),
- "C09": ("E2/E1: path-sensitive guard dominance of every model-changing call by signature verification and the owner/read-write comparison against the signing DID; argument provenance from the signed proposal; capability matrix for the model store prefixes",
+ "C09": ("E2/E1: path-sensitive guard dominance of every model-changing call by signature verification and the owner/read-write comparison against the signing DID; argument provenance from the signed proposal; capability matrix for the model store prefixes; argument provenance of the verifying DID manager (created with the claimed owner)",
          "Structural necessary conditions of data-model authorization for all paths and all field values of Store, Renew, Terminate, UpdataPermission, Complete->UpdateMeta: no model-changing effect is reachable without verifySignature succeeding over the proposal whose fields feed the effect and without the owner / grantee comparison; model prefixes are written only from the tabled entry points. Field-crafting bypasses (e.g. commit ids embedding the data id) are exactly the paths the search looks for. Cryptographic validity is the trusted library's.",
          "Trusts sao-did VerifyJWS (A-sig) and dependencies; access-path terms ignore aliasing through nested heap pointers.",
          "DESIGN.md §3 C09"),
@@ -34,15 +34,15 @@ CLAIMED = {
          "Structural necessary conditions for fault reports: the 'never changes balances, orders, shards or other pledges' clause is proved as absence of capability over the call graph; every write is dominated by the registered-node and fishman tests; a report is persisted only after provider/metadata/order/data-id/shard-listed/holder/unexpired tests; self-recovery only for faults recorded against the signer. Penalty <= holdings (numeric) is not decided.",
          "Trusts dependencies; over-approximate call graph (absence of capability is sound, presence may be spurious).",
          "DESIGN.md §3 C19"),
- "C17": ("E2/E1: path-sensitive guard dominance for Binding/Update/UpdatePaymentAddress incl. for-all loops and helper summaries; data dependence of the signed payload; capability matrix of the binding tables; written record keys equal the keys the guards looked up",
+ "C17": ("E2/E1: path-sensitive guard dominance for Binding/Update/UpdatePaymentAddress incl. for-all loops and helper summaries; data dependence of the signed payload; capability matrix of the binding tables; written record keys equal the keys the guards looked up; for-all accumulation of the reverse-index removal list over the forward removal list",
          "Structural necessary conditions of DID registry integrity for all paths and inputs of the three handlers: no table write without the tests the statement names; for-all requirements (every account handled, payment account never unbound) recognised as loops whose every iteration passes the test; the payload whose signature is verified must depend on the claimed DID and timestamp; binding tables written only from the handlers, genesis and the v2 migration. Whole-table agreement is not decided.",
          "Trusts signature primitives and dependencies; CAIP-10 parsing is the repo's own helper (not re-verified).",
          "DESIGN.md §3 C17"),
- "C20": ("E2/E3/E5: interprocedural guard dominance of every store of the super role (conjoined up the call chain), must-follow demotion after each failing requirement, every-path reachability of the re-evaluation from share-affecting hooks, ordering checks in RemoveVstorage/Reset, D3 residue scan",
+ "C20": ("E2/E3/E5: interprocedural guard dominance of every store of the super role (conjoined up the call chain), must-follow demotion after each failing requirement, every-path reachability of the re-evaluation from share-affecting hooks, ordering checks in RemoveVstorage/Reset, D3 residue scan; guard dominance of every non-zero source of the shares-to-subtract argument (value sources followed through φs and helper results)",
          "Structural necessary conditions for the super-node role: promotion only under status mask AND capacity threshold AND delegation-share check (along every call chain); each failing requirement in the re-evaluation routine is followed by demotion; each share-affecting staking hook re-evaluates on every path and the hooks are registered with staking; capacity withdrawal re-tests after the decrement and demotes; Reset clears the role first; decision uses committed state only (D3). Agreement of the flag with the predicate over staking histories is not decided.",
          "Trusts the staking keeper's hook call protocol as documented in DESIGN §1; dependencies trusted.",
          "DESIGN.md §3 C20"),
- "C15": ("E2/E3: guard dominance and must-avoid over the two node producers, index selection and GetSps; provenance of RandomSP's result; for-all accumulation of ignore lists at the four call sites",
+ "C15": ("E2/E3: guard dominance and must-avoid over the two node producers, index selection and GetSps; provenance of RandomSP's result; for-all accumulation of ignore lists at the four call sites; def-use confinement of the unfiltered candidate list to the ignore filter",
          "Structural necessary conditions of replica placement for all node populations, ignore lists and seeds: a node is produced for selection only after the capacity/status/reputation(/role, not-ignored) tests; RandomSP returns only nodes from those producers; an index equal to an earlier one is never appended; GetSps succeeds only with 0 < replica <= selected; every RandomSP call gets an ignore list that accumulates every existing holder (nil only for a new order). Uniformity and the count bound as arithmetic are not decided; termination of RandomIndex is C02.",
          "Trusts dependencies; cyclic φ terms are compared by SSA identity where term text would be unstable.",
          "DESIGN.md §3 C15"),
@@ -54,7 +54,7 @@ CLAIMED = {
          "Structural necessary conditions of block-reward accounting: coins are minted only from the node begin-blocker and never burnt (proof over the call graph); the counter grows only after a successful mint by exactly the minted coin; mint is dominated by the pledge/reward tests and the baseline replacement is a guarded minimum; every persisted capacity change is preceded by settlement at the old capacity and followed by re-basing; a claim persists exactly the fractional remainder. Halving numerics and the sum bound are not decided (the division by pool.TotalStorage is reported under C02).",
          "Trusts dependencies; value identity is term identity (same access path, no intervening write assumed within the handler).",
          "DESIGN.md §3 C08"),
- "C06": ("E1/E7/E3/E2: module-account registration table vs bank call sites, bank error discipline, closed table of money flows, status classification of refund contributions in Withdraw",
+ "C06": ("E1/E7/E3/E2: module-account registration table vs bank call sites, bank error discipline, closed table of money flows, status classification of refund contributions in Withdraw; accrual-clock pairing (reward accrual persisted only with LastRewardAt := height)",
          "Three necessary structural clauses of escrow solvency: every module account named in a bank call is registered with the permission the call needs (else the bank panics and the payout cannot happen); the error of every bank mutator call is consumed (else records are updated for a transfer that failed); every bank call site matches the closed table of flows (modules, counter-party term, amount form) — a new or altered outflow is reported. The inequality balance >= sum owed is not decided.",
          "Trusts bank keeper semantics (A-bank) and dependencies.",
          "DESIGN.md §3 C06"),
@@ -62,7 +62,7 @@ CLAIMED = {
          "Structural necessary conditions of collateral safety: collateral leaves the node escrow only through tabled flows to the signer or to the provider recorded in the released shard; the amount released is shard.Pledge net of debt repaid first; withdrawal is dominated by size <= total − used and use by the free-capacity test; the collateral stored in a shard equals coins taken plus debt recorded, and the provider's total moves by the same amount (violated at renewal: known finding). Numeric non-negativity and rounding are not decided.",
          "Trusts dependencies; value identity is term identity.",
          "DESIGN.md §3 C07"),
- "C14": ("E3: coupled-delta analysis (sibling agreement and same-function coupling of aggregate updates); book/un-book call pairing on every path",
+ "C14": ("E3: coupled-delta analysis (sibling agreement and same-function coupling of aggregate updates); book/un-book call pairing on every path; sibling agreement of the guards of the two release sides (WorkerRelease in Withdraw / ShardRelease in TerminateOrder)",
          "Structural necessary condition of aggregate accounting: each aggregate is updated only together with, and by the same term as, the per-shard/per-provider quantity it sums (append vs release siblings agree; provider and pool totals move together; total shard collateral moves by what is stored in the shard — violated at renewal: known finding). The equalities themselves on reachable states are not decided.",
          "Trusts dependencies; parameters of sibling functions are matched by record type.",
          "DESIGN.md §3 C14"),
@@ -70,7 +70,7 @@ CLAIMED = {
          "Topology and identity clauses of payment conservation: order escrow pays only the market escrow, the payer's/owner's payment address or the DID ledger; market escrow pays only order escrow, the claiming provider or the owner's payment address; Store and RenewOrder charge exactly once, exactly the amount they persist. Price formula, income accrual, refund arithmetic and the sum identity income + refunds = charged are runtime quantities and are NOT decided.",
          "Trusts dependencies; value identity is term identity plus 'no write to the variable after the charge'.",
          "DESIGN.md §3 C04"),
- "C05": ("E3/E2/E1: must-pass chain in CancelOrder, call-site preconditions (for-all shard removal or pending), refund only before completion, capability absence for reservation, schedule pairing, restore-from-own-last-element identities in RollbackMeta",
+ "C05": ("E3/E2/E1: must-pass chain in CancelOrder, call-site preconditions (for-all shard removal or pending), refund only before completion, capability absence for reservation, schedule pairing, restore-from-own-last-element identities in RollbackMeta; modified-but-unpersisted local record analysis (T-persist: direct field stores and mutation through pointer-parameter helpers)",
          "Structural necessary conditions of full refund and clean rollback: every success path of CancelOrder refunds the recorded amount (flow table), rolls the model back and removes the order, in that order; every caller first removes all shards or is on the pending branch, and never cancels a completed order; Store/Ready/timeout cannot write pledge records nor take provider coins (proved as absence of capability); removing a model removes its schedule entry. Balance deltas and re-assignment histories are not decided.",
          "Trusts dependencies; over-approximate call graph.",
          "DESIGN.md §3 C05"),
@@ -82,7 +82,7 @@ CLAIMED = {
          "Structural necessary conditions of timeout progress: after providers are selected for waiting shards every success path schedules the order's next examination; every exit of the timeout handler is rescheduled or dominated by an allowed reason; the nothing-waiting branch moves no coins and removes only non-completed shards; the end-blocker hands every listed order to the handler. Eventual completion and the ten-interval bound as arithmetic are not decided.",
          "Trusts dependencies.",
          "DESIGN.md §3 C12"),
- "C13": ("E3: creation/alias/schedule pairings — new shard id listed and its order persisted (interprocedural through pointer-parameter helpers), model and alias created/removed together with the alias key from the same record, period start => release scheduled, model removal => schedule entry removed; alias/metadata creation dominated by emptiness tests on the written keys",
+ "C13": ("E3: creation/alias/schedule pairings — new shard id listed and its order persisted (interprocedural through pointer-parameter helpers), model and alias created/removed together with the alias key from the same record, period start => release scheduled, model removal => schedule entry removed; alias/metadata creation dominated by emptiness tests on the written keys; every success path after TerminateOrder runs the shard-removal loop to its end",
          "Creation-, alias- and schedule-side necessary conditions of referential integrity. Deletion-side list maintenance across shared renew orders and whole-state agreement need collection reasoning and are not decided.",
          "Trusts dependencies.",
          "DESIGN.md §3 C13"),
